@@ -214,3 +214,8 @@ for _t in ("uint8",):
                       ensures=[("recurrence", ens_fill)], timeout=20))
 ASSUMPTIONS.append("_fill_align_table: int32 score arithmetic is assumed not to overflow (no bound on scores is stated by the API); "
                    "sequence codes index the substitution matrix (checked by the caller align_optimal)")
+
+from pyvc.api import bounded_via_script
+bounded = bounded_via_script("C08")
+ASSUMPTIONS.append("bounded stand-in (labelled, not a proof) for the parts of align_optimal outside the contracts above (Alignment construction, "
+                   "table initialisation, Python driver): all pairs of sequences of length <= 3 over {A,C,G} x matrices x penalties x modes vs brute force (bounded/C08.py)")
